@@ -67,8 +67,10 @@ def execute(case, t):
                 raise Violation(f"round {r}: optimiser call {k} did not receive cluster {k}'s covariance bit for bit")
             lam = call["lam"]
             if isinstance(tr.lam, np.ndarray):
-                if not (lam is tr.lam or (isinstance(lam, np.ndarray) and lam.shape == tr.lam.shape and np.array_equal(lam, tr.lam))):
-                    raise Violation(f"round {r}: optimiser call {k} did not receive the caller's sparsity-weight matrix unchanged")
+                # compare with a copy taken before the run: the live object could have been edited in place
+                if not (isinstance(lam, np.ndarray) and lam.shape == tr.lam_before.shape and np.array_equal(lam, tr.lam_before)):
+                    raise Violation(f"round {r}: optimiser call {k} did not receive the caller's sparsity-weight matrix unchanged "
+                                    f"(max |diff| {float(np.max(np.abs(np.asarray(lam, dtype=float) - tr.lam_before))) if isinstance(lam, np.ndarray) and lam.shape == tr.lam_before.shape else 'shape'})")
             else:
                 if isinstance(lam, np.ndarray) or float(lam) != float(tr.lam):
                     raise Violation(f"round {r}: optimiser call {k} received sparsity weight {lam!r}, the caller passed {tr.lam!r}")
@@ -80,13 +82,19 @@ def execute(case, t):
         if (after_repop or biased) and len(tr.rounds) >= 2:
             nontrivial = True
     ce.classify(tr, t)
+    if any(len(c["members"]) > 4096 for q in tr.rounds for c in q["phases"]["statistics"]["after"]["clusters"]):
+        t.cls("cluster_with_more_than_4096_windows")
+        nontrivial = True
     if nontrivial:
         t.mark_nontrivial(ce.brief_result(tr))
 
 
 SUBCHECKS = [
+    SubCheck(name="per_round_statistics_long_series", strategy=gen.e2e_long_config, execute=execute,
+             budget={"quick": 15, "thorough": 300}, shards={"quick": 3, "thorough": 16}, modes=E2E_MODES),
     SubCheck(name="per_round_statistics_and_optimiser_arguments",
-             strategy=lambda: gen.e2e_config(betas=(0.0, 0.5, 2.0, 10.0, 50.0, 400.0), limits=(2, 3, 5, 30)), execute=execute,
+             strategy=lambda: gen.e2e_config(betas=(0.0, 0.5, 2.0, 10.0, 50.0, 400.0), limits=(2, 3, 5, 30),
+                                             lam_forms=("scalar", "scalar", "const_matrix", "random_matrix", "asymmetric_matrix")), execute=execute,
              budget={"quick": 160, "thorough": 4000}, shards={"quick": 16, "thorough": 8}, modes=E2E_MODES,
              min_nontrivial_fraction=0.25),
 ]
